@@ -184,6 +184,8 @@ async def run_superstep_async(
         if not isinstance(first_error, Exception):
             # A pause raised from a nested graph: siblings that completed in this
             # superstep keep their results in the partial state
+            for name, value in getattr(first_error, "nested_values", {}).items():
+                new_state.update_value(name, value)
             first_error._partial_state = new_state  # type: ignore[attr-defined]
             raise first_error
         raise ExecutionError(first_error, new_state) from first_error
